@@ -368,8 +368,8 @@ class Gen:
         """A real coefficient for a vector/array term: never the literal 0 (flatten would
         turn 0*v into the scalar 0)."""
         c = self.real_expr(depth)
-        if c == ["const", 0]:
-            c = ["const", 2]
+        if c in (["const", 0], ["const", 1]):
+            c = ["const", 2]        # flatten drops 0*v (-> 0) and 1*v (-> v, a plain copy)
         return c
 
     # ---- vector expressions (user type): linear combinations
@@ -407,6 +407,12 @@ class Gen:
 
     def arr_expr(self, n):
         """Whole-array expression of length n."""
+        r = self._arr_expr(n)
+        if r[0] == "var":           # never a plain copy (aliasing is a separate, switchable feature)
+            r = ["prod", ["const", 2], r]
+        return r
+
+    def _arr_expr(self, n):
         same = [a for a in self.names_of("arr") if self.defined[a][1] == n]
         k = self.choice(["scale", "lin", "abs"] if self.p["array_builtins"] and (
             self.p["builtin_set"] is None or "<builtin>elementwise_abs" in self.p["builtin_set"]) else ["scale", "lin"])
